@@ -577,8 +577,8 @@ fn lname(w: Which) -> &'static str {
 
 fn tok_len(tier: Tier) -> u32 {
     match tier {
-        Tier::Quick => 5,
-        Tier::Thorough => 6,
+        Tier::Quick => 6,
+        Tier::Thorough => 7,
     }
 }
 
@@ -607,7 +607,7 @@ impl Prop for ParseProp {
         vec!["substitution_bracket_roundtrip", "multipattern_roundtrip", "mutation_accepted_by_parser", "token_string_accepted_by_parser"]
     }
     fn rule(&self) -> String {
-        "Round trip: every term and pattern (pattern variables ?a ?b as leaves) of size <=3 (thorough 4) of four languages (Arith: payloads u32/Symbol; ArrayLang: non-binding lam; Sdql: nested Bind; Sym) with one numeric, one textual slot name is built with the enum constructors (no parser), printed and parsed back (Pattern, RecExpr), wrapped in three substitution-bracket forms per base pattern and with a substitution bracket on each argument, and put in 1-2 equation multi-patterns. Robustness: every prefix/suffix, single-token deletion/duplication/replacement/insertion (13-token alphabet), splice and multi-byte insertion of every valid text of size <=3, and every token string of length <=5 (thorough 6) over the alphabet, through Pattern::parse, RecExpr::parse, MultiPattern::parse under catch_unwind: Err is fine, Ok must be well formed (children count = operator arity) and print->parse to itself. Non-trivial = text accepted by at least one parser.".into()
+        "Round trip: every term and pattern (pattern variables ?a ?b as leaves) of size <=3 (thorough 4) of four languages (Arith: payloads u32/Symbol; ArrayLang: non-binding lam; Sdql: nested Bind; Sym) with one numeric, one textual slot name is built with the enum constructors (no parser), printed and parsed back (Pattern, RecExpr), wrapped in three substitution-bracket forms per base pattern and with a substitution bracket on each argument, and put in 1-2 equation multi-patterns. Robustness: every prefix/suffix, single-token deletion/duplication/replacement/insertion (13-token alphabet), splice and multi-byte insertion of every valid text of size <=3, and every token string of length <=6 (thorough 7) over the alphabet, through Pattern::parse, RecExpr::parse, MultiPattern::parse under catch_unwind: Err is fine, Ok must be well formed (children count = operator arity) and print->parse to itself. Non-trivial = text accepted by at least one parser.".into()
     }
     fn assumptions(&self) -> Vec<String> {
         vec!["payload values are restricted to ones that print unambiguously (no whitespace/brackets, u32 before Symbol)".into()]
